@@ -88,8 +88,9 @@ func (m *Model) validateUpdate(fanSpeed *traits.FanSpeed) error {
 func (m *Model) DeriveValues(old, new proto.Message) {
 	oldVal := old.(*traits.FanSpeed)
 	newVal := new.(*traits.FanSpeed)
-	if oldVal.Preset != newVal.Preset {
-		// preset updated, keep the index and percentage in sync
+	if newVal.Preset != "" && oldVal.Preset != newVal.Preset {
+		// preset updated, keep the index and percentage in sync.
+		// A write that names no preset hasn't chosen one: the index or the percentage it carries decide below
 		for i, preset := range m.presets {
 			if preset.Name == newVal.Preset {
 				newVal.PresetIndex = int32(i)
@@ -126,6 +127,11 @@ func (m *Model) DeriveValues(old, new proto.Message) {
 			}
 		}
 		return
+	}
+
+	if newVal.Preset == "" {
+		// index and percentage are what they were, so is the preset: the write just didn't name it
+		newVal.Preset = oldVal.Preset
 	}
 }
 
